@@ -313,8 +313,10 @@ CLAIMS = {
              "its hash, and after every accepted define_step the non-dynamic env_var rows of the step are declared "
              "variables (redefinition_declares_env, all three branches); a recycle with changed shell/overrides re-checks "
              "the step; a SUCCEEDED step carries the current values of its tracked variables. The whole-build statement "
-             "is decided by the oracle: generated histories of three families (projgen histories with restarts and watch "
-             "rebuilds, trees of nested/sibling plans, single-property redefinitions) on the real director code, compared "
+             "is decided by the oracle: generated and directed histories (projgen histories with restarts and watch "
+             "rebuilds, trees of nested/sibling plans, single-property redefinitions, a read-then-amend project under a "
+             "directed schedule, edits of a file / variable / glob match while its declaring sub-plan is detached, a consumer "
+             "whose producer's plan is dropped) on the real director code, compared "
              "with a build from scratch (attached graph with states, needs, env vars, globs, relations, content digests; "
              "all output bytes).",
         note=BASE_NOTE + "closed_unique / successful_build_closed (DESIGN T1/T2) are not proved. The case 'an output modified by "
@@ -341,7 +343,8 @@ CLAIMS = {
              "with cross-plan references, two static trees in one request, optional cross-plan conflicts) and amend-timing "
              "projects (post-hoc amend next to unrelated steps, 1 and 3-5 jobs), each built from scratch under 4-6 "
              "configurations plus one resumed-unchanged build: return-code class, canonical graph with digests, all files, "
-             "rejected-request texts.",
+             "rejected-request texts; also a deferred producer that reproduces its output, conflicting declarations by steps "
+             "with working directories, a pattern versus an amended output, a plan that amends the output of its own step.",
         note=BASE_NOTE + "schedule_confluence and decl_commute for whole requests are not proved (the two orders differ in row "
              "order; the equality is one of canonical dumps). Resource limits are varied upwards only; step durations are "
              "represented by the completion order chosen by the schedule. The cosmetic wording differences F16-F19 are "
@@ -360,7 +363,9 @@ CLAIMS = {
              "decided by the oracle: after every successful build of generated histories (C01 generator, plan trees with "
              "env overrides and a constrained glob) the build is repeated unchanged as a restart with another job count or "
              "as a watch rebuild (zero commands, identical graph text, identical bytes/mtime/inode), and after source-only "
-             "edits every executed step must be justified by an edited file or by another executed step.",
+             "edits every executed step must be justified by an edited file or by another executed step; directed histories: "
+             "a flipped shell flag, a variable that a step stopped reading, a step tracking a director-injected variable, a "
+             "static pattern with directory matches, an amended input detached by its plan's rerun.",
         note=BASE_NOTE + "noop_rebuild and cone are not proved for whole builds; that FILL_SAFE_UPDATE / UPDATE_CHECK_AFTER "
              "reproduce the stored values on a quiescent database follows from the refresh theorems of C10 under the flag "
              "disciplines. The simulation gives every written file a fresh mtime, so 'rewrites no output' is observed as "
@@ -389,7 +394,9 @@ CLAIMS = {
              "input at start and before exit; fresh builds, rebuilds and restarts after a kill, random schedules with 2-4 "
              "jobs, amends before/after the first read, 0-3 external edits of sources and built files; every SUCCEEDED "
              "step's reads against the content recorded at the end of the build; FAIL + drain + no later dispatch after a "
-             "change under a running command; availability of declared inputs at command start; freshness of accepted amends.",
+             "change under a running command; availability of declared inputs at command start; freshness of accepted amends "
+             "(also two-element amends and constant rewriters with a partial intermediate file, and a read-then-amend family "
+             "under a directed schedule); a file rewritten while it is hashed.",
         note=BASE_NOTE + "The two models are tied to the code by correspondence with the real Scheduler methods (clock with "
              "ties) and the real Executor.execute_job, Step.mark_completed and DirectorHandler.amend_step on real files (only "
              "launch_command and the hash thread replaced), including rows changed by another request between hashing and "
@@ -416,8 +423,10 @@ CLAIMS = {
              "deferred while its steps run) EVERY commit index and every step action boundary of the uninterrupted "
              "successful build is a kill point, 1 in 5 followed by a second kill of the restart; the restart runs with "
              "STEPUP_DEBUG=1; committed-state invariants after every commit; interrupted steps are executed again and none "
-             "of their outputs is BUILT before that; return code, every file, orphans and every graph line are compared with "
-             "the uninterrupted build.",
+             "of their outputs is BUILT before that; return code, every file, orphans, every graph line and the presence of the "
+             "recorded outcome of every SUCCEEDED step are compared with the uninterrupted build; hand-written projects "
+             "(deferred creator, one and two levels deep, with a late static declaration; three levels of creation) and the "
+             "kill before the root node exists are always included.",
         note=BASE_NOTE + "Equality of the completed restart with the uninterrupted build and the absence of consistency "
              "errors at reopening are decided by the oracle, not by a theorem (no B-layer model); _check_consistency's repair "
              "is modelled as a kernel request (C09), its strict form is exercised by the strict restarts. A kill is director "
